@@ -148,7 +148,7 @@ def check(prop, tier, seed, replay=None):
         dim = rng.choice([2, 3, 5])
         q = rng.choice([4, 8, 16, 32, 64])
         metric = rng.randint(0, 1)
-        n = rng.choice([5, 40, 95, 104, 130, 230, 330] if prop == 'C05' else [0, 3, 60, 100, 101, 140, 260, 420])
+        n = rng.choice([5, 40, 95, 104, 130, 230, 330, 520] if prop == 'C05' else [0, 3, 60, 100, 101, 140, 260, 420])
         scenario = None
         if ci < 2 or rng.random() < 0.1:
             # the first two collections of every run are the dedicated scenarios
@@ -167,6 +167,12 @@ def check(prop, tier, seed, replay=None):
                 fk = rng.choice([0, 0, 1, 3])
                 fa = rng.randint(1, 3)
                 fb = rng.randrange(fa)
+                if len(live) >= 200 and rng.random() < 0.5:
+                    # a selective filter: long runs of rejected documents between two accepted ones (the rejected
+                    # ones must not count towards the early-stop budget of the forest walk)
+                    fk, fa = 1, rng.choice([60, 97, 150, 211])
+                    fb = rng.choice(live) % fa
+                    stats['selective_filter_searches'] = stats.get('selective_filter_searches', 0) + 1
                 if prop == 'C05' or rng.random() < 0.25:
                     # a radius that covers the whole collection
                     R = 1.0 if metric == 1 else 1e6
@@ -332,7 +338,7 @@ def check(prop, tier, seed, replay=None):
         elif broken:
             chk.violation({'engine': 'proof', 'unproved': broken, 'what': 'a proof obligation no longer checks; no failing input found'}, tag='proof', no_input=True)
     chk.cov.update({'programs': stats['collections'], 'evaluations': stats['operations'] + stats['searches'], 'distinct_nontrivial': stats['operations'] + stats['searches'],
-                    'rule': 'collections of 0..420 documents (below and above the leaf threshold of 100; equal vectors and zero vectors that defeat splits), all quantisations, both metrics, seeded and unseeded random source, followed by churn (remove, overwrite with another vector, update, reopen, remove everything then refill; two dedicated scenarios in every run: empty-then-refill without reopening, and rewrite-with-the-same-vector then remove); the forest is dumped after every operation; searches with K, radius, covering radius, filters, queries equal to stored vectors',
+                    'rule': 'collections of 0..420 documents (below and above the leaf threshold of 100; equal vectors and zero vectors that defeat splits), all quantisations, both metrics, seeded and unseeded random source, followed by churn (remove, overwrite with another vector, update, reopen, remove everything then refill; two dedicated scenarios in every run: empty-then-refill without reopening, and rewrite-with-the-same-vector then remove); the forest is dumped after every operation; searches with K, radius, covering radius, filters (including selective ones that reject runs of more than 200 documents), queries equal to stored vectors',
                     'disagreements_checked': stats['searches'] + stats['steps_checked_in_model'], 'samples': samples, 'distribution': stats,
                     'correspondence': 'model and implementation agree' if corr is None else 'DIVERGED', 'proof_obligations_broken': broken})
     chk.assumptions = [NOTE]
